@@ -579,6 +579,13 @@ def sentence_field_cases(rng, tier):
             add(gen.sentence(pay, fill, start=start, tag=tag), 0)
     for tail in (b'', b'\r', b'\r\n', b'0', b'00', b'zz', b' ', b'G', b'000000', b'\xff'):
         add(gen.sentence(pay, fill, tail=tail), 0)
+    # what loggers and multiplexers append behind the checksum (time stamps, station names, a second checksum), behind
+    # payloads of every type bucket: nothing behind the checksum digits belongs to the sentence
+    for tail in (b',1241827200', b',x', b',', b',,', b',0*00', b'*00', b'\r,1', b',r003669945,1241827200', b' 1241827200', b';1', b',A,B,C,D,E,F,G'):
+        for first in b'048<@DHLPTdhw':
+            for ff in (0, 2, 5):
+                add(gen.sentence(bytes([first]) + pay[1:], ff, tail=tail), None)
+            add(gen.sentence(bytes([first]) + pay[1:], 0, 2, 1, 3, tail=tail), 0)
     # realistic TAG blocks (group / source / time parameters) in front of every numbering shape
     for _ in range(40):
         for (n, k, sid) in ((1, 1, None), (1, 1, 4), (2, 1, None), (2, 1, 3), (3, 1, None), (9, 1, 0), (0, 1, None), (2, 2, None)):
@@ -962,6 +969,21 @@ def capacity_cases(rng, tier):
             pay, fill = gen.armor(gen.message_bits(rng, 5))
             out.append(L(0, 1, gen.sentence(pay[:first], 0, 2, 1, 1))); out.append(L(0, 1, gen.sentence(pay[first:], fill, 2, 2, 1)))
             out.append(L(0, 1, gen.sentence(b'15M', 0)))
+    # a continuation that the buffer cannot hold (right id, right number) is rejected there; the group's own
+    # continuation, which fits, follows: what the rejected line leaves behind must not matter
+    for _ in range(scale(tier, 12, 120)):
+        pay, fill = gen.armor(gen.message_bits(rng, rng.choice([5, 8, 12, 19, 21])))
+        n = rng.choice([2, 3, 3, 4]); sid = rng.choice([None, 1, 5])
+        frs = gen.fragment(rng, pay, fill, n, sid)
+        j = rng.randrange(1, n)                      # the oversized line stands in front of fragment j+1
+        have = sum(len(f.split(b',')[5]) for f in frs[:j])
+        big = rng.choice([384 - have + 1, 384 - have + 2, 384, 383, 360, 500])
+        d = rng.randrange(2)
+        out.append('H c')
+        for i, fr in enumerate(frs):
+            if i == j: out.append(C(0, d, gen.sentence(rp(big), 0, n, j + 1, sid)))
+            out.append(C(0, d, fr))
+        out.append(C(0, d, gen.sentence(pay, fill)))
     # a long group whose fragment k overflows the buffer by one byte, then more fragments
     for k in (2, 3, 100, 254, 255):
         for over in (0, 1):
